@@ -67,8 +67,8 @@ theorem root_not_exempt (authUid authGid clientGid : Int) (member : Int → Int 
     the replay state are.  Hence the unauthorised client gets UNAUTHORIZED whether or not the
     credential is also expired, rewound or already decoded, and the attempt does not consume it. -/
 theorem unauthorized_wins_and_does_not_consume
-    (e r1 r2 r3 r4 r5 r6 r7 r8 r9 r10 r11 r12 r13 r14 rs : Int) (hauth : r12 < 0) :
-    let out := dec_process_msg e r1 r2 r3 r4 r5 r6 r7 r8 r9 r10 r11 r12 r13 r14 rs
+    (e r1 r2 r3 r4 r5 r6 r7 r8 r9 r10 r11 r12 r13 r14 rs ri : Int) (hauth : r12 < 0) :
+    let out := dec_process_msg e r2 ri r1 r3 r4 r5 r6 r7 r8 r9 r10 r11 r12 r13 r14 rs
     out.count "dec_validate_time" = 0 ∧ out.count "dec_validate_replay" = 0 ∧
     out.count "replay_remove" = 0 ∧ out.ret = -1 := by
   unfold dec_process_msg
@@ -80,8 +80,8 @@ theorem unauthorized_wins_and_does_not_consume
 /-- … and the reply to it is sanitised: with the error code UNAUTHORIZED in the message the reset
     runs exactly once before the single send (no payload, identity or metadata is disclosed). -/
 theorem unauthorized_reply_is_reset
-    (r1 r2 r3 r4 r5 r6 r7 r8 r9 r10 r11 r12 r13 r14 rs : Int) (hauth : r12 < 0) :
-    let out := dec_process_msg EMUNGE_CRED_UNAUTHORIZED r1 r2 r3 r4 r5 r6 r7 r8 r9 r10 r11 r12 r13 r14 rs
+    (r1 r2 r3 r4 r5 r6 r7 r8 r9 r10 r11 r12 r13 r14 rs ri : Int) (hauth : r12 < 0) :
+    let out := dec_process_msg EMUNGE_CRED_UNAUTHORIZED r2 ri r1 r3 r4 r5 r6 r7 r8 r9 r10 r11 r12 r13 r14 rs
     out.count "m_msg_reset" = 1 ∧ out.count "m_msg_send" = 1 := by
   unfold dec_process_msg EMUNGE_CRED_UNAUTHORIZED
   simp only [apply_ite (fun o => KOut.count o "m_msg_reset"), apply_ite (fun o => KOut.count o "m_msg_send")]
@@ -91,8 +91,8 @@ theorem unauthorized_reply_is_reset
 /-- The authorisation stage itself runs only after the MAC has been validated and the inner layer
     unpacked: the restriction fields it reads are authenticated. -/
 theorem auth_reads_authenticated_fields
-    (e r1 r2 r3 r4 r5 r6 r7 r8 r9 r10 r11 r12 r13 r14 rs : Int) :
-    let out := dec_process_msg e r1 r2 r3 r4 r5 r6 r7 r8 r9 r10 r11 r12 r13 r14 rs
+    (e r1 r2 r3 r4 r5 r6 r7 r8 r9 r10 r11 r12 r13 r14 rs ri : Int) :
+    let out := dec_process_msg e r2 ri r1 r3 r4 r5 r6 r7 r8 r9 r10 r11 r12 r13 r14 rs
     out.count "dec_validate_auth" = 1 →
       r9 ≥ 0 ∧ r11 ≥ 0 ∧ out.count "dec_validate_mac" = 1 ∧ out.count "dec_unpack_inner" = 1 := by
   unfold dec_process_msg
